@@ -43,8 +43,8 @@ func GovcLimbs(e *Element) [5]uint64 { return [5]uint64{e.l0, e.l1, e.l2, e.l3, 
 class RingGoGen(GoGen):
     """GoGen + the tier-F vocabulary, evaluated on real limbs"""
 
-    def __init__(self, prog, contracts, env, pkgname):
-        super().__init__(prog, contracts, env, None, MAIN if pkgname == "edwards25519" else FIELD)
+    def __init__(self, prog, contracts, env, pkgname, assigned=None):
+        super().__init__(prog, contracts, env, assigned, MAIN if pkgname == "edwards25519" else FIELD)
         self.pkgname = pkgname
 
     def limbs(self, x):
